@@ -79,7 +79,18 @@ var (
 	cnames    = map[string]string{}
 	// CNAMEErr makes LookupCNAME fail.
 	CNAMEErr error
+	// MaxDials, when positive, bounds the connections one world may open (reset by Reset): the dial after the last
+	// permitted one panics with Runaway, which turns a client that never stops exchanging messages into a finite run.
+	MaxDials int
+	dials    int
 )
+
+// Runaway is the panic value raised when MaxDials is exceeded.
+type Runaway struct{ Dials int }
+
+func (r Runaway) String() string {
+	return fmt.Sprintf("more than %d connections opened by one operation", r.Dials-1)
+}
 
 // Reset clears endpoints, the attempt log and CNAME script.
 func Reset() {
@@ -88,6 +99,7 @@ func Reset() {
 	Attempts = nil
 	cnames = map[string]string{}
 	CNAMEErr = nil
+	MaxDials, dials = 0, 0
 	mu.Unlock()
 }
 
@@ -299,7 +311,13 @@ func DialTimeout(network, address string, d time.Duration) (Conn, error) {
 	}
 	mu.Lock()
 	ep := endpoints[network+"|"+address]
+	dials++
+	over := MaxDials > 0 && dials > MaxDials
+	nd := dials
 	mu.Unlock()
+	if over {
+		panic(Runaway{nd})
+	}
 	if ep == nil {
 		logAttempt(network, address, "no-such-host")
 		return nil, &net.OpError{Op: "dial", Net: network, Err: fmt.Errorf("lookup %s: no such host", address)}
